@@ -667,7 +667,7 @@ def gen_vinegar():
           "def exceptionsModuleText : String := " + lean_str(vinegar.exceptions_module.__name__),
           "def exceptionsModule : List Nat := " + cps(vinegar.exceptions_module.__name__),
           "/-- `ClassType is type` (Python 3): the old-style branch of `load` is dead -/",
-          "def classTypeIsType : Bool := %s" % lean_bool(vinegar.ClassType is type),
+          "def classTypeIsType : Bool := %s" % lean_bool(getattr(vinegar, "ClassType", type) is type),
           "", "/-- everything `load` and the module functions it uses call (AST, normalised: helpers followed, method calls by",
           "method name); the model has one step per entry, or the entry is a pure helper of the language -/",
           "def loadCalls : List String := " + lean_list([lean_str(c) for c in ld["calls"]], 6),
